@@ -1,8 +1,9 @@
 /-
-The whole sheet: the lock-step simulation over all rows, the emitted node list, and the equality of
-the index-resolved abstractions of the compiled flow and of the reference flow.
+The whole sheet: the lock-step simulation over all rows, the emitted node list (the nodes of the
+node-producing rows, in row order), and facts about the two node lists used to compare the
+index-resolved abstractions of the compiled flow and of the reference flow.
 -/
-import Rpft.Lemmas.CoreSim
+import Rpft.Lemmas.CoreRow
 import Rpft.Lemmas.FlowAbs
 import Rpft.Lemmas.CompileFinalB
 import Rpft.Lemmas.RefFlowClosed
@@ -11,58 +12,79 @@ set_option linter.unusedVariables false
 namespace Rpft.CoreSheet
 open Rpft Rpft.Compile Rpft.RefFlow Rpft.Flow
 
-theorem rel_init (rows : List CRow) (noArgs testTypes : List Str) (h : noArgs = RefFlow.noArgsTests) :
-    Rel rows 0 0 (initSt noArgs testTypes) {} := by
-  refine ⟨rfl, rfl, rfl, fun j hj => absurd hj (Nat.not_lt_zero j), rfl, rfl, ?_, rfl, ?_, h, ?_⟩
+theorem rel_init (rows : List CRow) (M : Maps) (hM : ∀ j, M.rOf j = none) (noArgs testTypes : List Str)
+    (h : noArgs = RefFlow.noArgsTests) : Rel rows M false 0 (initSt noArgs testTypes) {} := by
+  refine ⟨by rw [gOf_zero]; rfl, by rw [gOf_zero]; rfl, fun j c hj => absurd hj (Nat.not_lt_zero j), rfl, rfl,
+    ?_, by simp [gOf_zero], ?_, ?_, h, ?_, ?_, ?_, fun j _ => hM j, ?_⟩
   · intro p hp; cases hp
   · intro e he; cases he
-  · intro j hj; exact absurd hj (Nat.not_lt_zero j)
+  · intro e he; cases he
+  · intro j c hv; rcases hv.1 with h1 | h1
+    · exact absurd h1 (Nat.not_lt_zero j)
+    · exact absurd h1.1 (by simp)
+  · intro j c j' c' hv; rcases hv.1 with h1 | h1
+    · exact absurd h1 (Nat.not_lt_zero j)
+    · exact absurd h1.1 (by simp)
+  · intro j i' hi'; rw [hM j] at hi'; cases hi'
+  · intro i n r hn; simp [initSt] at hn
 
-theorem pass1Row_prefix (c : CRow) (hf : rowOk c = true) (st st' : P1) (k : Nat)
-    (h : pass1Row st k (toRRow c) = .ok st') : st.out.reverse <+: st'.out.reverse := by
-  rw [pass1Row_node st k (toRRow c) (rowFacts c hf).kind] at h
-  split at h
-  · cases h
-  · rename_i st1 h1
-    injection h with h; subst h
-    exact addEdges_prefix _ st st1 _ h1
+/-- pass 1 only ever adds out-edges -/
+theorem pass1Row_prefix (r : RRow) (st st' : P1) (k : Nat) (h : pass1Row st k r = .ok st') :
+    st.out.reverse <+: st'.out.reverse := by
+  unfold pass1Row at h
+  by_cases hg : r.kind = .goTo
+  · simp only [hg, bind, Except.bind, pure, Except.pure] at h
+    generalize (if r.dests.length = 1 then List.replicate _ (r.dests.headD []) else r.dests) = ds at h
+    split at h
+    · simp [throw, throwThe, MonadExceptOf.throw] at h
+    · split at h
+      · cases h
+      · exact addEdges_prefix _ _ _ _ h
+  · cases hk : r.kind <;> simp only [hk, bind, Except.bind, pure, Except.pure] at h
+    all_goals first
+      | exact absurd hk hg
+      | exact addEdges_prefix _ _ _ _ h
+      | (split at h
+         · cases h
+         · rename_i st1 h1
+           injection h with h; subst h
+           exact addEdges_prefix _ st st1 _ h1)
 
-theorem fold_prefix : ∀ (l : List CRow) (k : Nat), (∀ c ∈ l, rowOk c = true) → ∀ (st st' : P1),
-    ((l.map toRRow).zipIdx k).foldlM (fun st (p : RRow × Nat) => pass1Row st p.2 p.1) st = .ok st' →
+theorem fold_prefix : ∀ (l : List RRow) (k : Nat) (st st' : P1),
+    (l.zipIdx k).foldlM (fun st (p : RRow × Nat) => pass1Row st p.2 p.1) st = .ok st' →
     st.out.reverse <+: st'.out.reverse := by
   intro l
   induction l with
   | nil =>
-    intro k _ st st' h
-    simp only [List.map_nil, List.zipIdx_nil, List.foldlM_nil, pure, Except.pure, Except.ok.injEq] at h
+    intro k st st' h
+    simp only [List.zipIdx_nil, List.foldlM_nil, pure, Except.pure, Except.ok.injEq] at h
     subst h; exact List.prefix_rfl
   | cons c l ih =>
-    intro k hf st st' h
-    simp only [List.map_cons, List.zipIdx_cons, List.foldlM_cons, bind, Except.bind] at h
-    cases h1 : pass1Row st k (toRRow c) with
+    intro k st st' h
+    simp only [List.zipIdx_cons, List.foldlM_cons, bind, Except.bind] at h
+    cases h1 : pass1Row st k c with
     | error err => rw [h1] at h; cases h
     | ok st1 =>
       rw [h1] at h
-      exact (pass1Row_prefix c (hf c (by simp)) st st1 k h1).trans
-        (ih (k + 1) (fun c' hc' => hf c' (by simp [hc'])) st1 st' h)
+      exact (pass1Row_prefix c st st1 k h1).trans (ih (k + 1) st1 st' h)
 
 theorem rows_sim (rows : List CRow) (outF : List OutEdge) (g : Good rows outF) : ∀ (l : List CRow) (k : Nat),
     (∀ (i : Nat) (c : CRow), l[i]? = some c → rows[k + i]? = some c) → (∀ c ∈ l, rowOk c = true) →
-    ∀ (s : Compile.St) (st st' : P1), Rel rows k k s st →
+    ∀ (M : Maps) (s : Compile.St) (st st' : P1), Rel rows M false k s st →
       ((l.map toRRow).zipIdx k).foldlM (fun st (p : RRow × Nat) => pass1Row st p.2 p.1) st = .ok st' →
       st'.out.reverse <+: outF →
-      wp (steps (l.map toEvent)) s (fun _ s' => Rel rows (k + l.length) (k + l.length) s' st') := by
+      wp (steps (l.map toEvent)) s (fun _ s' => ∃ M', Rel rows M' false (k + l.length) s' st') := by
   intro l
   induction l with
   | nil =>
-    intro k _ _ s st st' h hst _
+    intro k _ _ M s st st' h hst _
     simp only [List.map_nil, List.zipIdx_nil, List.foldlM_nil, pure, Except.pure, Except.ok.injEq] at hst
     subst hst
     simp only [List.map_nil]
     unfold steps; wp_simp
-    simpa using h
+    exact ⟨M, by simpa using h⟩
   | cons c l ih =>
-    intro k hrows hfr s st st' h hst hpre
+    intro k hrows hfr M s st st' h hst hpre
     simp only [List.map_cons, List.zipIdx_cons, List.foldlM_cons, bind, Except.bind] at hst
     cases h1 : pass1Row st k (toRRow c) with
     | error err => rw [h1] at hst; cases hst
@@ -73,65 +95,77 @@ theorem rows_sim (rows : List CRow) (outF : List OutEdge) (g : Good rows outF) :
       unfold steps
       wp_simp
       have hck : rows[k]? = some c := by have := hrows 0 c (by simp); simpa using this
-      have hpre1 : st1.out.reverse <+: outF :=
-        (fold_prefix l (k + 1) (fun c' hc' => hfr c' (by simp [hc'])) st1 st' hst).trans hpre
-      refine wp_mono (row_sim rows outF g k c hck (hfr c (by simp)) s st st1 h h1 hpre1) ?_
-      intro _ s1 r1
+      have hpre1 : st1.out.reverse <+: outF := (fold_prefix _ (k + 1) st1 st' hst).trans hpre
+      refine wp_mono (row_sim rows outF g M k c hck (hfr c (by simp)) s st st1 h h1 hpre1) ?_
+      intro _ s1 ⟨M1, r1⟩
       have := ih (k + 1) (fun i c' hi => by
         have := hrows (i + 1) c' (by simpa using hi)
-        rw [← this]; congr 1; omega) (fun c' hc' => hfr c' (by simp [hc'])) s1 st1 st' r1 hst hpre
+        rw [← this]; congr 1; omega) (fun c' hc' => hfr c' (by simp [hc'])) M1 s1 st1 st' r1 hst hpre
       refine wp_mono this ?_
-      intro _ s2 r2
+      intro _ s2 ⟨M2, r2⟩
       have e : k + 1 + l.length = k + (c :: l).length := by simp; omega
-      rw [← e]; exact r2
+      exact ⟨M2, by rw [← e]; exact r2⟩
 
-/-! ### the emitted nodes are the arena, in row order -/
+/-! ### the emitted nodes: the nodes of the node-producing rows, in row order -/
 
-theorem emit_rel {rows : List CRow} {n : Nat} {s : Compile.St} {st : P1} (h : Rel rows n n s st) :
-    emit s (s.groups.size + 2) 0 = List.range n := by
-  have h1 : ∀ j, j < n → emit s (s.groups.size + 1) (j + 1) = [j] := by
-    intro j hj
-    obtain ⟨t, _, ht⟩ := h.grp j hj
-    simp [emit, ht]
-  have e1 : emit s (s.groups.size + 1 + 1) 0 = (List.range' 1 n).flatMap (emit s (s.groups.size + 1)) := by
+/-- the arena indices of the nodes of row `j` (none when the row produces no node) -/
+def nodeIdxs (rows : List CRow) (M : Maps) (j : Nat) : List Nat :=
+  match rows[j]? with
+  | some c => if isNodeRow c then idxs M j else []
+  | none => []
+
+theorem emit_rel {rows : List CRow} {M : Maps} {s : Compile.St} {st : P1}
+    (h : Rel rows M false rows.length s st) :
+    emit s (s.groups.size + 2) 0 = (List.range rows.length).flatMap (nodeIdxs rows M) := by
+  have e1 : emit s (s.groups.size + 1 + 1) 0 =
+      (List.range' 1 (gOf rows rows.length - 1)).flatMap (emit s (s.groups.size + 1)) := by
     simp [emit, h.root]
   rw [e1]
-  have : ∀ (m : Nat), m ≤ n → (List.range' 1 m).flatMap (emit s (s.groups.size + 1)) = List.range m := by
+  have : ∀ (m : Nat), m ≤ rows.length →
+      (List.range' 1 (gOf rows m - 1)).flatMap (emit s (s.groups.size + 1)) =
+        (List.range m).flatMap (nodeIdxs rows M) := by
     intro m
     induction m with
-    | zero => intro _; rfl
+    | zero => intro _; simp [gOf_zero]
     | succ m ihm =>
       intro hm
-      rw [List.range'_concat, List.flatMap_append, ihm (by omega), List.range_succ]
-      simp only [List.flatMap_cons, List.flatMap_nil, List.append_nil, Nat.one_mul]
-      have := h1 m (by omega)
-      rw [Nat.add_comm 1 m, this]
-  exact this n (Nat.le_refl n)
+      obtain ⟨c, hc⟩ : ∃ c, rows[m]? = some c := ⟨rows[m], by simp⟩
+      rw [List.range_succ, List.flatMap_append, ← ihm (by omega), gOf_succ rows m c hc]
+      have hpos := gOf_pos rows m
+      by_cases hn : isNodeRow c = true
+      · have hg := h.grp m c (by omega) hc hn
+        have e2 : gOf rows m + (if isNodeRow c = true then 1 else 0) - 1 = (gOf rows m - 1) + 1 := by simp [hn] <;> omega
+        rw [e2, List.range'_concat, List.flatMap_append]
+        have e3 : 1 + (gOf rows m - 1) = gOf rows m := by omega
+        simp [e3, emit, hg, nodeIdxs, hc, hn, idxs]
+      · have hn' : isNodeRow c = false := by simpa using hn
+        simp [hn', nodeIdxs, hc]
+  exact this rows.length (Nat.le_refl _)
 
-instance : Inhabited NodeM := ⟨⟨[], .basic, [], none, [], .none⟩⟩
+/-! ### positions in a list built by `filterMap` -/
 
-theorem out_nodes_rel {rows : List CRow} {n : Nat} {s : Compile.St} {st : P1} (h : Rel rows n n s st) :
-    ((emit s (s.groups.size + 2) 0).filterMap fun i => s.nodes[i]?) = s.nodes.toList := by
-  rw [emit_rel h]
-  apply List.ext_getElem?
-  intro i
-  by_cases hi : i < n
-  · have e1 : (List.range n)[i]? = some i := by simp [hi]
-    rw [Array.getElem?_toList (xs := s.nodes)]
-    have hlt : i < s.nodes.size := by rw [h.nsize]; exact hi
-    have e2 : s.nodes[i]? = some s.nodes[i] := by simp [hlt]
-    rw [e2]
-    have : ((List.range n).filterMap fun i => s.nodes[i]?) = (List.range n).map (fun i => s.nodes[i]?.getD default) := by
-      apply List.filterMap_eq_map_iff_forall_eq_some.mpr
-      intro a ha
-      have : a < s.nodes.size := by rw [h.nsize]; simpa using ha
-      simp [this]
-    rw [this]
-    simp [hi, e2]
-  · have hl1 : ((List.range n).filterMap fun i => s.nodes[i]?).length ≤ n := by
-      have := List.length_filterMap_le (fun i => s.nodes[i]?) (List.range n)
-      simpa using this
-    rw [List.getElem?_eq_none (by omega), List.getElem?_eq_none (by simp [h.nsize]; omega)]
+theorem filterMap_pos {α β} (f : α → Option β) (L : List α) (t : Nat) (x : α) (y : β) (hx : L[t]? = some x)
+    (hy : f x = some y) : (L.filterMap f)[((L.take t).filterMap f).length]? = some y := by
+  have hlt : t < L.length := (List.getElem?_eq_some_iff.mp hx).1
+  have hL : L = L.take t ++ x :: L.drop (t + 1) := by
+    have := List.getElem?_eq_some_iff.mp hx
+    rw [← this.2]
+    simp
+  have : L.filterMap f = (L.take t).filterMap f ++ y :: (L.drop (t + 1)).filterMap f := by
+    conv => lhs; rw [hL]
+    rw [List.filterMap_append, List.filterMap_cons, hy]
+  rw [this]
+  simp
+
+theorem filterMap_map_congr {α β γ δ} (L : List α) (f : α → Option β) (g : α → Option γ) (a : β → δ) (b : γ → δ)
+    (h : ∀ x ∈ L, (f x).map a = (g x).map b) : (L.filterMap f).map a = (L.filterMap g).map b := by
+  induction L with
+  | nil => rfl
+  | cons x L ih =>
+    have hx := h x (by simp)
+    have ih' := ih (fun y hy => h y (by simp [hy]))
+    simp only [List.filterMap_cons]
+    cases hf : f x <;> cases hg : g x <;> simp [hf, hg] at hx ⊢ <;> simp [ih', hx]
 
 /-! ### finding a node by its identifier -/
 
@@ -149,21 +183,6 @@ theorem findNode_unique (f : Flow) (t : Nat) (u : Id) (n : Node) (ht : f.nodes[t
   simpa using this
 
 /-! ### the reference nodes -/
-
-theorem refNodes_all (rows : List RRow) (out : List OutEdge) (h : ∀ r ∈ rows, r.kind.isNode = true) :
-    refNodes rows out = rows.zipIdx.map fun (p : RRow × Nat) => mkNode p.2 p.1 (out.filter (·.src = p.2)) := by
-  unfold refNodes
-  apply List.filterMap_eq_map_iff_forall_eq_some.mpr
-  intro p hp
-  have : p.1 ∈ rows := by
-    have := List.mem_zipIdx' hp
-    rw [this.2]; exact List.getElem_mem _
-  simp [h p.1 this]
-
-theorem refNodes_getElem? (rows : List RRow) (out : List OutEdge) (h : ∀ r ∈ rows, r.kind.isNode = true)
-    (j : Nat) : (refNodes rows out)[j]? = (rows[j]?).map fun r => mkNode j r (out.filter (·.src = j)) := by
-  rw [refNodes_all rows out h, List.getElem?_map, List.getElem?_zipIdx]
-  cases rows[j]? <;> simp
 
 theorem mkNode_uuid (k : Nat) (r : RRow) (out : List OutEdge) : (mkNode k r out).uuid = nodeId k :=
   (mkNode_good k r out).uuid
